@@ -3,7 +3,7 @@ SPEC = dict(
     bins=rust("c12"),
     design_ref="§3-C12",
     technique="closed-state BFS to fixpoint over the real LineIndex cache (explicit-state, S1) + bounded-exhaustive text enumeration against a naive LF/CR/CRLF line splitter",
-    rule="texts: every string over {a, LF, CR} of length <= 8 (quick) / 12 (thorough) plus long-body families (pre . k lines . post, "
+    rule="texts: every string over {a, LF, CR} of length <= 8 (quick) / 11 (thorough) plus long-body families (pre . k lines . post, "
          "k around the 16-line forward-walk cap and its multiples, line in {'', x}, terminator LF/CR/CRLF/mixed, pre/post in {'', a, CR, LF CR, CRLF}); "
          "states = distinct concrete values of the `cache` field reached by BFS; a case is distinct+non-trivial when its (text, cache state) pair is new",
     level_text="On every enumerated text every reachable concrete state of the real one-entry lookup cache has every offset of the op alphabet "
